@@ -16,7 +16,7 @@ import z3
 from .sym import Ref
 
 MAX_INST_PER_Q = 4000
-ROUNDS = 2
+ROUNDS = 3
 
 
 _cv_cache: Dict[int, bool] = {}
@@ -69,47 +69,6 @@ def ground_terms(fs: List[z3.ExprRef]) -> Dict[str, Dict[int, z3.ExprRef]]:
     for f in fs:
         walk(f)
     return out
-
-
-def _instantiate(f, terms: Dict[str, Dict[int, z3.ExprRef]], stats) -> z3.ExprRef:
-    """replace every (positive, after snf) universal by the conjunction of its instances"""
-    cache = {}
-
-    def go(t):
-        if t.get_id() in cache:
-            return cache[t.get_id()]
-        if z3.is_quantifier(t):
-            if not t.is_forall():
-                raise RuntimeError("existential left after snf")
-            n = t.num_vars()
-            sorts = [t.var_sort(i) for i in range(n)]
-            cands = [list(terms.get(str(s), {}).values()) for s in sorts]
-            total = 1
-            for c in cands:
-                total *= max(len(c), 1)
-            insts = []
-            if total <= MAX_INST_PER_Q and all(cands):
-                import itertools
-
-                body = t.body()
-                for combo in itertools.product(*cands):
-                    # de Bruijn: var 0 is the LAST bound variable
-                    inst = z3.substitute_vars(body, *reversed(combo))
-                    insts.append(go(inst))
-                stats["instances"] += len(insts)
-            else:
-                stats["skipped_quantifiers"] += 1
-            r = z3.And(insts) if insts else z3.BoolVal(True)
-        elif z3.is_app(t) and t.num_args() > 0 and t.sort().kind() == z3.Z3_BOOL_SORT and t.decl().kind() in (
-            z3.Z3_OP_AND, z3.Z3_OP_OR, z3.Z3_OP_NOT, z3.Z3_OP_IMPLIES, z3.Z3_OP_ITE, z3.Z3_OP_EQ, z3.Z3_OP_IFF):
-            ch = [go(c) if c.sort().kind() == z3.Z3_BOOL_SORT else c for c in t.children()]
-            r = t.decl()(*ch)
-        else:
-            r = t
-        cache[t.get_id()] = r
-        return r
-
-    return go(f)
 
 
 _hq_cache: Dict[int, Tuple[object, bool]] = {}
@@ -185,37 +144,97 @@ def abstract_strings(fs: List[z3.ExprRef]) -> List[z3.ExprRef]:
     return [go(f) for f in fs]
 
 
+class _Grounder:
+    """F  |->  quantifier-free F' with:  F satisfiable  =>  F' satisfiable   (so `F' unsat` proves `F unsat`).
+
+    Polarity-aware: a universal in positive position (existential in negative position) is replaced by its
+    instances at the ground index terms collected so far; an existential in positive position (universal in
+    negative position) is Skolemised with constants that are fresh for the *instantiated* context (enclosing
+    universals have already been instantiated top-down, so no Skolem functions are needed).  Boolean `==` / `ite`
+    over sub-formulas that contain quantifiers are first expanded into implications."""
+
+    def __init__(self, stats):
+        self.stats = stats
+        self.terms: Dict[str, Dict[int, z3.ExprRef]] = {}
+        self.skolems: Dict[tuple, list] = {}
+
+    def cands(self, sorts):
+        return [list(self.terms.get(str(srt), {}).values()) for srt in sorts]
+
+    def ground(self, t, pos: bool):
+        if not _has_quant(t):
+            return t
+        if z3.is_quantifier(t):
+            n = t.num_vars()
+            sorts = [t.var_sort(i) for i in range(n)]
+            universal_here = t.is_forall() == pos  # behaves like a universal in the satisfiability problem
+            body = t.body()
+            if universal_here:
+                cands = self.cands(sorts)
+                total = 1
+                for c in cands:
+                    total *= max(len(c), 1)
+                if total > MAX_INST_PER_Q or not all(cands):
+                    self.stats["skipped_quantifiers"] += 1
+                    return z3.BoolVal(True) if pos else z3.BoolVal(False)
+                import itertools
+
+                insts = []
+                for combo in itertools.product(*cands):
+                    insts.append(self.ground(z3.substitute_vars(body, *reversed(combo)), pos))
+                self.stats["instances"] += len(insts)
+                return z3.And(insts) if pos else z3.Or(insts)
+            key = (t.get_id(), pos)
+            if key not in self.skolems:
+                self.skolems[key] = (t, [z3.FreshConst(srt, "sk") for srt in sorts])
+            consts = self.skolems[key][1]
+            return self.ground(z3.substitute_vars(body, *reversed(consts)), pos)
+        k = t.decl().kind()
+        ch = t.children()
+        if k == z3.Z3_OP_NOT:
+            return z3.Not(self.ground(ch[0], not pos))
+        if k == z3.Z3_OP_AND:
+            return z3.And([self.ground(c, pos) for c in ch])
+        if k == z3.Z3_OP_OR:
+            return z3.Or([self.ground(c, pos) for c in ch])
+        if k == z3.Z3_OP_IMPLIES:
+            return z3.Implies(self.ground(ch[0], not pos), self.ground(ch[1], pos))
+        if k in (z3.Z3_OP_EQ, z3.Z3_OP_IFF) and ch[0].sort().kind() == z3.Z3_BOOL_SORT:
+            a, b = ch
+            return self.ground(z3.And(z3.Implies(a, b), z3.Implies(b, a)), pos)
+        if k == z3.Z3_OP_ITE and t.sort().kind() == z3.Z3_BOOL_SORT:
+            c, a, b = ch
+            return self.ground(z3.And(z3.Implies(c, a), z3.Implies(z3.Not(c), b)), pos)
+        if k == z3.Z3_OP_XOR:
+            a, b = ch
+            return self.ground(z3.Not(a == b), pos)
+        raise RuntimeError(f"quantifier below unsupported operator {t.decl().name()}")
+
+
 def prepare(hyps: List[z3.ExprRef], goal: z3.ExprRef) -> Tuple[List[z3.ExprRef], dict]:
     """returns quantifier-free assertions whose unsatisfiability proves hyps |= goal"""
     stats = {"instances": 0, "skipped_quantifiers": 0, "rounds": 0}
-    g = z3.Goal()
-    for h in hyps:
-        g.add(h)
-    g.add(z3.Not(goal))
-    if any(_has_quant(f) for f in g):
-        res = z3.Tactic("snf")(g)
-        fs = [f for sub in res for f in sub]
-    else:
-        fs = list(g)
-    qf = [f for f in fs if not _has_quant(f)]
+    fs = list(hyps) + [z3.Not(goal)]
+    gr = _Grounder(stats)
+    cur = [f for f in fs if not _has_quant(f)]
     qs = [f for f in fs if _has_quant(f)]
-    terms: Dict[str, Dict[int, z3.ExprRef]] = {}
-    cur = list(qf)
+    out = list(cur)
     for _r in range(ROUNDS):
         stats["rounds"] += 1
-        found = ground_terms(cur + qs)
+        found = ground_terms(out + qs)
         grew = False
         for srt, d in found.items():
-            have = terms.setdefault(srt, {})
+            have = gr.terms.setdefault(srt, {})
             for k, v in d.items():
                 if k not in have and len(have) < MAX_TERMS_PER_SORT:
                     have[k] = v
                     grew = True
         if not grew and _r > 0:
             break
-        cur = qf + [_instantiate(q, terms, stats) for q in qs]
-    stats["terms"] = {k: len(v) for k, v in terms.items()}
-    return cur, stats
+        stats["instances"] = 0
+        out = cur + [gr.ground(q, True) for q in qs]
+    stats["terms"] = {k: len(v) for k, v in gr.terms.items()}
+    return out, stats
 
 
 NATIVE_MS = 4000
